@@ -751,7 +751,17 @@ class Bubble(Box):
         return "Bubble({}{})".format(
             repr(self.inside),
             "" if (self.dom, self.cod) == (self.inside.dom, self.inside.cod)
-            else ", dom={}, cod={})".format(repr(self.dom), repr(self.cod)))
+            else ", dom={}, cod={}".format(repr(self.dom), repr(self.cod)))
+
+    def __eq__(self, other):
+        if isinstance(other, Bubble):
+            return (self.dom, self.cod, self.inside)\
+                == (other.dom, other.cod, other.inside)\
+                and getattr(self, "func", None) is getattr(other, "func", None)
+        return not isinstance(other, Box) and super().__eq__(other)
+
+    def __hash__(self):
+        return hash(repr(self))
 
 
 Arrow.sum = Sum
